@@ -58,6 +58,15 @@ inline bool exh16() {
 #endif
 }
 
+// all 2^32 values of a 32-bit or float element type: thorough tier, builds marked -DVX_EXH32 (arm-cover configurations)
+inline bool exh32() {
+#ifdef VX_EXH32
+    return opt().thorough;
+#else
+    return false;
+#endif
+}
+
 inline bool selected(const std::string& subject, const std::string& op) {
     Options& o = opt();
     if (!o.only_subject.empty() && o.only_subject != subject) return false;
